@@ -109,7 +109,12 @@ GEmit == ~fin \/ PrintT(<<"BEHAVIOUR", ToJson(Beh)>>)
 Flush == /\ fin /\ PrintT(<<"BEHAVIOUR", ToJson(Beh)>>)
          /\ w' \in {[World0(c) EXCEPT !.drain = 0] : c \in Cfgs}
          /\ ws' = <<w', w', w', w'>> /\ alive' = 1..4 /\ hist' = <<>> /\ seen' = {} /\ fin' = FALSE
-GNextSim == IF fin THEN Flush ELSE GNext
+\* (TLC's simulator computes ALL successors before it picks one: draw the stimulus first; the set-bound
+\* variable makes TLC draw once per step)
+GNextR == /\ ~fin
+          /\ IF Stims = {} THEN fin' = TRUE /\ UNCHANGED <<w, ws, alive, hist, seen>>
+                           ELSE \E s \in {RandomElement({c \in Stims : Len(hist) >= 0})} : GStep(s)
+GNextSim == IF fin THEN Flush ELSE GNextR
 GSpecSim == GInit /\ [][GNextSim]_gvars
 
 \* the epilogue ends with every request closed (model-level sanity; the harness checks the real one)
